@@ -9,7 +9,7 @@ WT = "/tmp/confirm_wt"
 ENV = dict(os.environ, CARGO_NET_OFFLINE="true", CARGO_TARGET_DIR="/tmp/confirm_target")
 
 def sh(cmd, cwd=None, timeout=3000):
-    p = subprocess.run(cmd, shell=True, cwd=cwd, env=ENV, stdout=subprocess.PIPE, stderr=subprocess.STDOUT, text=True, timeout=timeout)
+    p = subprocess.run(["bash", "-c", cmd], cwd=cwd, env=ENV, stdout=subprocess.PIPE, stderr=subprocess.STDOUT, text=True, timeout=timeout)
     return p.returncode, p.stdout
 
 if not os.path.isdir(WT):
@@ -26,6 +26,13 @@ def run_demo():
         shutil.copytree(demo_dir, dst, ignore=shutil.ignore_patterns("target"))
         shutil.copy(os.path.join(WT, "Cargo.lock"), os.path.join(dst, "Cargo.lock"))
         env_t = "CARGO_TARGET_DIR=/tmp/confirm_target_demo"
+        if os.path.exists(os.path.join(dst, "run.sh")):
+            rc, out = sh(f"{env_t} bash run.sh 2>&1 | tail -15; exit ${{PIPESTATUS[0]}}", cwd=dst)
+            return (0 if rc == 0 else 1), out
+        has_tests = os.path.isdir(os.path.join(dst, "tests")) or "#[test]" in "".join(open(f).read() for f in glob.glob(os.path.join(dst, "src", "*.rs")))
+        if not has_tests:
+            rc, out = sh(f"{env_t} cargo run --offline 2>&1 | tail -15; exit ${{PIPESTATUS[0]}}", cwd=dst)
+            return (0 if rc == 0 else 1), out
         rc, out = sh(f"{env_t} cargo test --offline 2>&1 | tail -15", cwd=dst)
         rc = 0 if ("test result: ok" in out and "FAILED" not in out and "error" not in out.split("test result")[0][-400:]) else 1
         return rc, out
